@@ -15,6 +15,11 @@ CHECKS = {
             "trusted: Python fractions; rationalisation of float literals (round-trip checked); tolerance 1e-12 on coefficients for tables typed as 15-digit decimals"),
 }
 
+CHECKS["C07"] = ("DESIGN §4 C07",
+    "exhaustive enumeration of every quadrature rule the factory accepts (n=1..40 per shape), every (element type, matrix type) pair, and every (element type, template/gmsh mesh, affine map) geometry and rank case, against exact reference integrals",
+    "complete enumeration of the finite rule tables and of a bounded mesh/map alphabet on the implementation; linearity in the integrand reduces 'all polynomials' to the monomial basis",
+    "trusted: fractions for reference-element integrals, numpy leggauss + Duffy collapse for mesh-level reference integrals, numpy eigvalsh for rank; tolerance 1e-13 (rules), 1e-11 (meshes)")
+
 PENDING_REASON = "not claimed yet: the bounded-exhaustive check for this property is designed (DESIGN.md §4) but not built in the committed tree"
 
 
